@@ -5,7 +5,8 @@ From CM Require Import Base.Dict Model.Run.
 
 Definition tables_agree (a b : run_tables) : Prop :=
   (forall g k, has_guard g (guards_of a k) = has_guard g (guards_of b k)) /\
-  (forall k, writer_guarded a k = writer_guarded b k).
+  (forall k, writer_guarded a k = writer_guarded b k) /\
+  t_diff a = t_diff b.
 
 Section Agree.
   Variables a b : run_tables.
@@ -23,7 +24,7 @@ Section Agree.
 
   Lemma papply_agree K p c fi :
     pipeline_apply a tree parse code T diff cfg K p c fi = pipeline_apply b tree parse code T diff cfg K p c fi.
-  Proof. destruct Hab as [H _]. unfold pipeline_apply. cbv zeta. now rewrite !H. Qed.
+  Proof. destruct Hab as [H [_ Hd]]. unfold pipeline_apply, diff_base. cbv zeta. now rewrite !H, Hd. Qed.
   Lemma fstep_agree K res p c :
     file_step a tree parse code T diff cfg K res p c = file_step b tree parse code T diff cfg K res p c.
   Proof. unfold file_step. now rewrite papply_agree. Qed.
@@ -42,7 +43,7 @@ Section Agree.
   Qed.
   Lemma tstores_agree ds stores : forall fs, try_stores a W cfg ds fs stores = try_stores b W cfg ds fs stores.
   Proof.
-    destruct Hab as [_ H]. induction stores as [|st rest IH]; intros fs; simpl; [reflexivity|]. now rewrite IH, H.
+    destruct Hab as [_ [H _]]. induction stores as [|st rest IH]; intros fs; simpl; [reflexivity|]. now rewrite IH, H.
   Qed.
   Lemma pdeps_agree id s : process_dependencies a W cfg id s = process_dependencies b W cfg id s.
   Proof.
@@ -64,10 +65,10 @@ End Agree.
 Definition all_guards : list guard := [TryParse; TryTransform; IfNoChanges; IfNoDiff; IfNotDryWrite].
 Definition canon_libcst (tb : run_tables) : run_tables :=
   {| t_libcst := List.filter (fun g => has_guard g (t_libcst tb)) all_guards;
-     t_regex := t_regex tb; t_xml := t_xml tb; t_writers := t_writers tb |}.
+     t_regex := t_regex tb; t_xml := t_xml tb; t_writers := t_writers tb; t_diff := t_diff tb |}.
 Lemma canon_libcst_agree tb : tables_agree tb (canon_libcst tb).
 Proof.
-  split; [|reflexivity]. intros g k. destruct k; try reflexivity. simpl.
+  split; [|split; reflexivity]. intros g k. destruct k; try reflexivity. simpl.
   destruct g; simpl;
     destruct (has_guard TryParse (t_libcst tb)), (has_guard TryTransform (t_libcst tb)), (has_guard IfNoChanges (t_libcst tb)),
              (has_guard IfNoDiff (t_libcst tb)), (has_guard IfNotDryWrite (t_libcst tb)); reflexivity.
